@@ -7,19 +7,18 @@
  "annotate": ["aws/aws_readkeys.c"],
  "specs": {"aws/aws_readkeys.c": "contracts/aws__aws_readkeys.c.C20.spec"},
  "defines": ["VERIF_HALLOC", "KEYS_NLINES=3", "KEYS_LINEMAX=24", "VERIF_STRMAX=32"],
- "thorough_defines": ["KEYS_LINEMAX=40", "VERIF_STRMAX=48"],
- "thorough_unwind": 50,
+ "thorough_defines": ["KEYS_LINEMAX=24", "VERIF_STRMAX=32"],
  "models": ["models/libc_string.c", "models/aws_stdio.c"],
  "instrument_flags": ["--nondet-static-exclude", "insecure_memzero_ptr"],
  "cbmc": ["--malloc-may-fail", "--malloc-fail-null"],
  "loop_contracts": false,
  "unwind": 34, "bounded": true,
- "bound": "key files of at most 3 lines (any content, any of them unterminated, read errors and end of file anywhere), each line at most 24 characters newline included (thorough: 40) -- a line that fills the 1024-byte buffer takes the same path as an unterminated shorter line (no EOL found) but is itself out of reach; the line loop, the zeroing loop and the libc string scans are fully unwound, unwinding assertions on",
- "timeout": 900,
+ "bound": "key files of at most 3 lines (any content, any of them unterminated, read errors and end of file anywhere), each line at most 24 characters newline included -- a line that fills the 1024-byte buffer takes the same path as an unterminated shorter line (no EOL found) but is itself out of reach; the line loop, the zeroing loop and the libc string scans are fully unwound, unwinding assertions on",
+ "timeout": 900, "tier": "thorough",
  "assumptions": ["fopen/fgets/ferror/fclose modelled (models/aws_stdio.c): arbitrary lines, arbitrary failures",
                  "strdup/strcspn/strchr/strcmp/strlen are the executable models of models/libc_string.c; malloc may fail",
                  "insecure_memzero is the real code, reached through insecure_memzero_ptr holding its initialiser (the library never reassigns it)",
-                 "the line loop cannot be closed by a loop contract (pointers assigned from strdup inside the loop are lost by value sets after the havoc): bounded in the number of lines"]
+                 "BOUNDED cross-check of group C20/keys_loop (which closes the line loop with a loop contract, for any number of lines, but models strdup with prophecy blocks): here strdup really copies and nothing is prophesied, at the price of unwinding the line loop"]
 }
 */
 #include "keys_common.h"
